@@ -103,6 +103,30 @@ _JSON = [make_line(i, LEVELS[(i * 3) % 7], "msg%d" % i, ["t"] if i % 2 else None
 _JSON_PRIO = [L.PenlogPriority.from_level(LEVELS[(i * 3) % 7]).value for i in range(6)]
 
 
+_PARSED = [L.PenlogRecord.parse_json(j) for j in _JSON]
+
+
+class FastParse:
+    """navigation obligations: the JSON body of the six concrete lines is parsed once at import (the real parser is the
+    subject of the round-trip obligation); lines are recognised by their concrete body"""
+
+    def __enter__(self):
+        self.saved = L.PenlogRecord.__dict__["parse_json"]
+
+        def parse_json(cls, data):
+            for i, body in enumerate(_JSON):
+                if data.endswith(body) or data.endswith(body + b"\n"):
+                    return _PARSED[i]
+            raise ValueError("unknown line")
+
+        L.PenlogRecord.parse_json = classmethod(parse_json)
+        return self
+
+    def __exit__(self, *exc):
+        L.PenlogRecord.parse_json = self.saved
+        return False
+
+
 def build(k, prios, prefixed, last_nl=True):
     """k lines; line i carries the syslog style prefix <p_i> (p_i symbolic) iff prefixed[i]"""
     lines, eff = _build(k, prios, prefixed)
@@ -134,7 +158,8 @@ def navigate(mode, k, prios, prefixed, threshold, n, last_nl=True):
     hr.PenlogReader = lambda path: reader
     hr.print = lambda rec, end="", **kw: out.append(rec)
     try:
-        rc = hr._main()
+        with FastParse():
+            rc = hr._main()
     finally:
         hr.parse_args, hr.PenlogReader = saved[:2]
         if saved[2] is None:
@@ -160,7 +185,8 @@ def offsets(k, prios, prefixed, threshold, offset, reverse):
     """PenlogReader.records(priority, offset, reverse) for offsets inside the log"""
     lines, eff = build(k, prios, prefixed)
     reader = reader_for(lines)
-    got = [int(r.data[3:]) for r in reader.records(L.PenlogPriority(threshold), offset=offset, reverse=reverse)]
+    with FastParse():
+        got = [int(r.data[3:]) for r in reader.records(L.PenlogPriority(threshold), offset=offset, reverse=reverse)]
     start = offset if offset >= 0 else max(k + offset, 0)
     idx = list(range(start, -1, -1)) if reverse else list(range(start, k))
     sel = [i for i in idx if eff[i] <= threshold]
